@@ -107,6 +107,26 @@ CHECKS = {
   ref="DESIGN.md §3 C18",
   note=NOTE_COMMON + " A broken table obligation is reported with the differing cells as the replay.",
   technique="Coq proof over exhaustively regenerated tables (T-exh) + list-level theorem + differential correspondence on random property lists"),
+ "C02": dict(
+  text="Coq theorems, Closed under the global context, about the reference codec (all 29 kinds, both versions, 16/32-bit identifiers, optional "
+       "fields, any number of properties, every string/binary/payload length): decode(encode p) = p for every packet with packet_ok p (the "
+       "decoder consumes exactly the body); the Remaining Length field equals the body length and the total size is 1 + its size + body; "
+       "Variable Byte Integer round trip for every value <= 268 435 455 by arithmetic; properties and strings round trip. Tie every run: the "
+       "builders accept exactly packet_ok and produce exactly `encode`; the monitor checks on the implementation size() = serialised length = "
+       "concatenated to_buffers(), re-parse to an equal packet consuming the body, Remaining Length on the wire.",
+  ref="DESIGN.md §3 C02, §4 F-25",
+  note=NOTE_COMMON + " The theorems are about the hand-written reference codec; the library is tied to it by the sampled correspondence only.",
+  technique="Coq round-trip proof of a reference codec (combinator lemmas, induction on lists) + differential correspondence with the builders/parsers"),
+ "C03": dict(
+  text="The reference codec Packet/*.v is the independently written encoder/decoder (from the OASIS documents; no shared code or constants). Coq "
+       "theorems, Closed under the global context: the compiled constants equal the specification's - 11 reason/return code enums on all 256 "
+       "byte values and the 15 fixed-header bytes (regenerated every run); the reference codec reads back what it writes (all kinds); its VBI "
+       "decoder accepts only the minimal encoding. Decided on the implementation by the monitor: for every generated abstract packet the "
+       "library's bytes ARE the reference encoding, the reference decoder reads them back, the library re-parses them to an equal packet and "
+       "its accessors report the generated field values.",
+  ref="DESIGN.md §3 C03",
+  note=NOTE_COMMON + " A symmetric error in the library (same wrong offset/constant in writer and reader) differs from the reference encoding and is reported with the packet as replay.",
+  technique="independent reference codec in Coq (round-trip proved) + Coq obligations over regenerated constants + differential correspondence"),
  "C12": dict(
   text="Coq theorems, Closed under the global context, for every state and every M: the vacancy getter is M minus the counter saturating at "
        "zero (never wraps or panics); a QoS>0 PUBLISH arriving when the peer already has the announced maximum outstanding is answered "
